@@ -172,7 +172,7 @@ def c01_finding(o, v):
 
 def random_cfg(rng, small=True):
     lo = rng.choice([21, 48, 60])
-    c = {"ppqn": 24, "tracks": rng.randint(1, 4), "pitLo": lo, "pitHi": rng.choice([lo + 2, 72, 108]),
+    c = {"ppqn": rng.choice([24, 24, 24, 48, 12, 96]), "tracks": rng.randint(1, 4), "pitLo": lo, "pitHi": rng.choice([lo + 2, 72, 108]),
          "steps": DEFAULT_STEPS if rng.random() < .7 else [2, 4, 8, 12, 24],
          "values": rng.choice([[4, 6, 8, 9, 12, 16, 18, 24, 36], [6, 12, 24], [12, 24, 48, 96], [2, 4, 8]]),
          "nbins": rng.choice([1, 2, 3, 4, 8, 16, 127]), "tsLo": 2, "tsHi": 16,
@@ -599,11 +599,16 @@ def run_c03(ctx, g):
                 for s in sorted(pc["sigs"]):
                     if s[0] <= t:
                         sig = (s[1], s[2])
-                t += 96 * sig[0] // sig[1]
+                t += c["ppqn"] * 4 * sig[0] // sig[1]
                 lines.append(t)
             interior = lines[:-1]
             cuts = [b for b in interior if rng.random() < .5]
             crossing = any(n["s"] < b < n["e"] for tr in pc["tracks"] for n in tr for b in lines)
+            if c["ppqn"] != 24:      # the bar splitter works at the library resolution; other resolutions go the split route
+                if crossing:
+                    continue
+                cases.append((len(cases), c, pc, cuts, "split"))
+                continue
             # cut fragments only have allowed note values after re-quantisation
             cases.append((len(cases), c, pc, cuts, True if crossing else rng.choice([True, False, "split"])))
     obs = pmap(chunked, cases, chunk=100)
@@ -710,9 +715,11 @@ def run_c19(ctx, g):
     else:
         cases = []
         n = g["streamLen"]
-        for c, letters in zip(g["configs"], g["letters"]):
+        both = [(c, l) for c, l in zip(g["configs"], g["letters"])]
+        both += [(dict(c, ppqn=48), l) for c, l in both if c["ppqn"] == 24]
+        for c, letters in both:
             c = with_nbins(c)
-            full = 4 if not ctx.thorough else 5
+            full = (4 if c["ppqn"] == 24 else 3) if not ctx.thorough else 5
             for ln in range(1, full + 1):
                 for st in itertools.product(letters, repeat=ln):
                     cases.append((len(cases), c, list(st), None))
